@@ -108,7 +108,12 @@ def keyProveOp (inp : Json) : Except String Json := do
       | _ => pw sB xr
     rmap := rmap ++ [(name, rv)]
     if (← getBool aj "covered") then covered := covered ++ [(name, xr, ← getDec aj "xr_tilde")]
-  let pk : PubKey Int := { s := sB, z := ← pw sB xz, rctxt := ← pw sB (← getDec inp "xrctxt"), r := rmap }
+  let zv ← match optField inp "z_override" with
+    | some (.str t) => match parseDecInt t with
+      | some v => pure v
+      | none => throw "bad z_override"
+    | _ => pw sB xz
+  let pk : PubKey Int := { s := sB, z := zv, rctxt := ← pw sB (← getDec inp "xrctxt"), r := rmap }
   -- entries appended to xr_cap after the proof was computed (names the key may not have)
   let extra ← match optField inp "extra_proof_entries" with
     | some (.arr es) => es.toList.mapM fun e => do
